@@ -19,6 +19,12 @@ def builds_needed(tier):
     return ["rel"]
 
 
+# Own corpus re-run on other builds of the crate (mc/core.py: extra builds). Every observation is compared with the same model.
+def extra_builds(tier):
+    return [("relchk", None), ("fe32", None)]
+
+
+
 def bounds(tier):
     return {"seeds": len(seeds()), "every_length_0_to_300_for": "all seeds (+4095,4096,65536)" if tier == "thorough" else "two seeds", "boundary_lengths": list(BOUNDARY)}
 
@@ -100,7 +106,7 @@ def cases(tier):
     return out
 
 
-def shards(tier):
+def _own_shards(tier):
     return [("shard", i) for i in range(len(seeds()))] + [("shard_sweep", ("seed", i)) for i in range(8)] + [("shard_sweep", ("msg", i)) for i in range(8)]
 
 
@@ -119,3 +125,17 @@ def shard(i, tier):
     ck.run(cs)
     ck.stats.states = len(cs)
     return ck.stats
+
+
+def shards(tier):
+    # signing is SHA-512, two wide reductions, a*b+c mod L and a fixed-base multiplication: the scalar and fixed-base programs of C15 (limb-field operands, carry-chain digit strings) drive their rare paths directly, as a component of this property
+    from props import c15
+    comp = []
+    for fname in ['shard_scalar', 'shard_scalar_hooks', 'shard_base']:
+        comp += [("shard_c15_component", (f, a)) for (f, a) in c15.shards(tier) if f == fname]
+    return _own_shards(tier) + comp
+
+
+def shard_c15_component(arg, tier):
+    from mc import multi
+    return multi.run_component("c15", arg[0], arg[1], tier, PROPERTY_ID)
